@@ -144,8 +144,14 @@ func c10Case(ctx *genCtx, ts *tape.Set, dir string) *genResult {
 		case 3:
 			outcome = "load-error"
 			args = [][]string{{"./p", "./nonexistent"}, {"./nonexistent", "./p"}, {world.ModulePath + "/nope"}, {"./p", "-x"}}[mt.Intn(4)]
-		case 4, 5:
+		case 4:
 			outcome = "io-fault"
+		case 5:
+			if mt.Bool() && w.PName == "" {
+				outcome = "read-fault" // a source file cannot be read: load error (GOPATH-mode world, see verifsim.InstallBuildHooks)
+			} else {
+				outcome = "io-fault"
+			}
 		}
 		if w.HasQ && mt.Bool() {
 			args = append(args, "./q")
@@ -153,11 +159,32 @@ func c10Case(ctx *genCtx, ts *tape.Set, dir string) *genResult {
 		}
 	}
 	files := w.Render()
+	var runEnv []string
+	root := dir
+	if outcome == "read-fault" {
+		files = gopathLayout(files)
+		runEnv = gopathEnv(dir)
+		root = filepath.Join(dir, "src/example.com/w")
+		for k := range processed {
+			processed["src/example.com/w/"+k] = processed[k]
+		}
+	}
 	writeWorld(dir, files)
 	plan := drawPlan(ts.Fork("plan"))
+	if outcome == "read-fault" {
+		var srcs []string
+		for _, k := range sortedKeysStr(files) {
+			if strings.HasPrefix(k, "src/example.com/w/p/") && strings.HasSuffix(k, ".go") {
+				srcs = append(srcs, strings.TrimPrefix(k, "src/example.com/w/"))
+			}
+		}
+		f := Fault{Kind: "read-err", Path: srcs[mt.Intn(len(srcs))], Nth: mt.Intn(3), Errno: []string{"EIO", "EACCES"}[mt.Intn(2)]}
+		plan.Faults = []Fault{f}
+		res.Sample["fault"] = fmt.Sprintf("read-err on %s open #%d", f.Path, f.Nth)
+	}
 	// pre-existing generated files (also in packages that will not be processed)
 	if mt.Bool() {
-		r := runGoderive(ctx.bins.inst, dir, append(append([]string{}, flags[:0]...), "./..."), &Plan{MapMode: "identity"}, 0)
+		r := runGoderive(ctx.bins.inst, root, append(append([]string{}, flags[:0]...), "./..."), &Plan{MapMode: "identity"}, 0, runEnv...)
 		res.count(r)
 		if outcome == "io-fault" && mt.Chance(1, 3) {
 			// the "no calls left" path: remove every call, keep the generated file
@@ -193,7 +220,7 @@ func c10Case(ctx *genCtx, ts *tape.Set, dir string) *genResult {
 			orig[e.Path] = b
 		}
 	}
-	r := runGoderive(ctx.bins.inst, dir, append(append([]string{}, flags...), args...), plan, 0)
+	r := runGoderive(ctx.bins.inst, root, append(append([]string{}, flags...), args...), plan, 0, runEnv...)
 	res.count(r)
 	if m := noCrash(r); m != "" {
 		res.SawPanic = true
